@@ -480,7 +480,11 @@ def handler(ctx):
                 continue
             if v[0] == 'sub' and v[1][0] == 'attr' and v[1][1] == V('self') and v[1][2] in sound | unsound:
                 continue        # a hit of the memo: equals the miss that filled the entry when the memo is sound (judged above)
-            ok = v[0] == 'call' and v[1] == ('fn', 'CSVDailyBarDataSource.' + src) and v[2][1:] == (V('dt'), V('asset_symbol'))
+            # (the accessor may be declared by a base class or protocol of the data sources)
+            src_cls = ctx.cls('CSVDailyBarDataSource')
+            src_qns = {'CSVDailyBarDataSource.' + src} | {k_.name + '.' + src for k_ in (src_cls.mro() if src_cls is not None else [])} | \
+                {c_.name + '.' + src for c_ in ctx.M.classes.values() if src in c_.methods and src_cls is not None and (c_ in src_cls.mro() or src_cls in c_.mro())}
+            ok = v[0] == 'call' and v[1][0] == 'fn' and set(v[1][1].split('|')) <= src_qns and v[2][1:] == (V('dt'), V('asset_symbol'))
             mentions = any(s_[0] == 'call' and s_[1][0] == 'fn' and s_[1][1].endswith('.' + src) for s_ in T.subterms(v))
             if not ok and not mentions:
                 # the answer reaches the caller by a route this rule does not read (a generator of quotes consumed by next(), ...): nothing is claimed
